@@ -39,6 +39,11 @@ def short(obj: Any, n: int = 48) -> str:
     return s
 
 
+EPOCH = 1_700_000_000.0
+REAL_ERA = 1_760_000_000.0   # anything later than this was stamped by the real clock
+JUMPS_2 = (0.0, 0.003, 0.25, 0.6, 0.999, 1.0, 2.5, 61.0, 0.0, 0.4, 1.0, 5.0, 30.0, 3600.0, -0.7, -5400.0)
+
+
 class SessionKilled(BaseException):
     pass
 
@@ -61,9 +66,15 @@ class SimEnv:
         # simulated wall clock: a fixed epoch, a seeded phase within the second, a small step per reading and a
         # seeded jump at every operation boundary (so that two writes land in the same or in different seconds)
         self.clock_seed: int = int(cfg.get("clock_seed", 0))
-        self._clock_now: float = 1_700_000_000.0 + (self.clock_seed % 1000) / 1000.0
+        # clock model 2 (plans that say so): the session's start time comes from the plan (sessions of one world start
+        # at different - also earlier - times), jumps between operations may go backwards (a stepped / reset clock),
+        # and file modification times follow the simulated clock (see stamp)
+        self.clock_model: int = int(cfg.get("clock_model", 1))
+        self._clock_now: float = float(cfg.get("clock_start", EPOCH)) + (self.clock_seed % 1000) / 1000.0
         self._clock_state: int = self.clock_seed
         self._clock_start: float = self._clock_now
+        self._clock_fwd: float = 0.0
+        self._open_writes: Dict[int, str] = {}
         self._fork_ok = 0
         self.in_worker: Optional[int] = None
         self._worker_events: List[Dict[str, Any]] = []
@@ -185,6 +196,8 @@ class SimEnv:
         self.log("killed", path=rel)
         if self.in_worker is not None:
             raise SessionKilled()
+        for p in list(self._open_writes.values()):
+            self.stamp(p)
         self.emit({"ev": "op_end", "i": self.cur_op, "op": getattr(self, "cur_op_name", "?"), "ok": False,
                    "exc": "SessionKilled", "killed": True})
         self.emit({"ev": "session_end", "killed": True, "stats": self.stats})
@@ -200,12 +213,44 @@ class SimEnv:
     # -- installation ----------------------------------------------------------------------------
     def sim_time(self) -> float:
         self._clock_now += 0.0001
+        self._clock_fwd += 0.0001
         return self._clock_now
 
     def clock_jump(self) -> None:
         """Called at every operation boundary."""
         self._clock_state = (self._clock_state * 6364136223846793005 + 1442695040888963407) % (1 << 64)
-        self._clock_now += (0.0, 0.003, 0.25, 0.6, 0.999, 1.0, 2.5, 61.0)[(self._clock_state >> 33) % 8]
+        if self.clock_model >= 2:
+            d = JUMPS_2[(self._clock_state >> 33) % len(JUMPS_2)]
+            if d < 0:
+                self.probe("clock_jumped_back")
+        else:
+            d = (0.0, 0.003, 0.25, 0.6, 0.999, 1.0, 2.5, 61.0)[(self._clock_state >> 33) % 8]
+        self._clock_now += d
+        self._clock_fwd += abs(d)
+
+    def stamp(self, path: str, t: Optional[float] = None) -> None:
+        """File modification times are part of the simulated clock: a file written through the file seam carries the
+        simulated time of its last close (real utime on the real file, so stat / scandir / pathlib all agree and
+        the value survives into the next session)."""
+        try:
+            t = self._clock_now if t is None else t
+            os.utime(path, (t, t))
+        except OSError:
+            pass
+
+    def normalise_mtimes(self) -> None:
+        """Files the harness itself created or edited with the real clock (world materialisation, pre-faults) get a
+        simulated time just before the session's start, so that no real time is visible through stat."""
+        t = self._clock_start - 1.0
+        for root in [self.world_dir] + self.extra_roots:
+            for d, _dirs, files in os.walk(root):
+                for n in files + ["."]:
+                    p = os.path.join(d, n)
+                    try:
+                        if os.stat(p).st_mtime > REAL_ERA:
+                            os.utime(p, (t, t))
+                    except OSError:
+                        pass
 
     def install(self) -> None:
         global _CURRENT
@@ -235,6 +280,19 @@ class SimEnv:
         multiprocessing.pool.Pool = simpool.SimPool
         concurrent.futures.ProcessPoolExecutor = simpool.SimExecutor
         concurrent.futures.process.ProcessPoolExecutor = simpool.SimExecutor
+        # threads: executors, thread pools and bare threads run under the same tape, one task at a time
+        import concurrent.futures.thread
+        import multiprocessing.dummy
+        import queue as _queue
+        concurrent.futures.ThreadPoolExecutor = simpool.SimThreadExecutor
+        concurrent.futures.thread.ThreadPoolExecutor = simpool.SimThreadExecutor
+        concurrent.futures.as_completed = simpool.sim_as_completed
+        concurrent.futures.wait = simpool.sim_wait
+        concurrent.futures._base.as_completed = simpool.sim_as_completed
+        concurrent.futures._base.wait = simpool.sim_wait
+        multiprocessing.pool.ThreadPool = simpool.SimThreadPool
+        multiprocessing.dummy.Pool = simpool.SimThreadPool
+        self.threads = simpool.SimThreads(self)
         try:
             import psutil
             psutil.virtual_memory = lambda: types.SimpleNamespace(
@@ -257,14 +315,37 @@ class SimEnv:
             return real_fork()
 
         os.fork = guarded_fork
-        real_thread_start = threading.Thread.start
+        threads = self.threads
 
-        def guarded_thread_start(self_thread, *a, **k):
-            env.stats["unsimulated_concurrency"] += 1
-            env.log("escape", what="threading.Thread.start")
-            return real_thread_start(self_thread, *a, **k)
+        def sim_thread_start(self_thread, *a, **k):
+            if env.in_worker is not None:
+                # inside a pool worker nothing owns a tape for it
+                env.stats["unsimulated_concurrency"] += 1
+                env.log("escape", what="threading.Thread.start in a pool worker")
+            threads.start(self_thread)
 
-        threading.Thread.start = guarded_thread_start
+        def sim_thread_join(self_thread, timeout=None):
+            if getattr(self_thread, "_sim_state", None) is None:
+                raise RuntimeError("cannot join thread before it is started")
+            threads.join(self_thread)
+
+        def sim_thread_is_alive(self_thread):
+            return getattr(self_thread, "_sim_state", None) in ("pending", "running")
+
+        threading.Thread.start = sim_thread_start
+        threading.Thread.join = sim_thread_join
+        threading.Thread.is_alive = sim_thread_is_alive
+        real_q_get = _queue.Queue.get
+
+        def sim_q_get(self_q, block=True, timeout=None):
+            while block and self_q.empty() and threads.step():
+                pass
+            if block and self_q.empty() and env.in_worker is None and timeout is None:
+                from .simpool import SimDeadlock
+                raise SimDeadlock("queue.Queue.get() on an empty queue with no thread left to run")
+            return real_q_get(self_q, block, timeout)
+
+        _queue.Queue.get = sim_q_get
         real_proc_start = multiprocessing.process.BaseProcess.start
 
         def guarded_proc_start(self_proc, *a, **k):
@@ -398,6 +479,9 @@ class SimEnv:
                     env.fire(f, rel, at=name, call=n)
                     env.kill_now(rel)
                 out = real(*a, **k)
+                if name in ("copyfile", "copy") and len(a) >= 2:
+                    dst = os.fspath(a[1])
+                    env.stamp(os.path.join(dst, os.path.basename(os.fspath(a[0]))) if os.path.isdir(dst) else dst)
                 f = env._match_fault("kill_after_fsop", rel, fsop=name, call=n)
                 if f is not None:
                     env.fire(f, rel, at=name, call=n)
@@ -438,7 +522,12 @@ class SimEnv:
             raise OSError(eno, os.strerror(eno), os.fspath(file))
         fh = real_open(file, mode, *a, **k)
         self.log("file_open", path=rel, mode=cls, open_k=open_k)
-        return _FileProxy(self, fh, rel, cls, open_k)
+        px = _FileProxy(self, fh, rel, cls, open_k)
+        if writing:
+            ap = os.path.abspath(os.fspath(file))
+            object.__setattr__(px, "_abs", ap)
+            self._open_writes[id(px)] = ap
+        return px
 
     def count_io(self, rel: str, what: str) -> int:
         d = self.io_counts.setdefault(rel, {})
@@ -460,6 +549,7 @@ class _FileProxy:
         object.__setattr__(self, "_writes", 0)
         object.__setattr__(self, "_bytes", 0)
         object.__setattr__(self, "_closed_logged", False)
+        object.__setattr__(self, "_abs", None)
 
     # reads ---------------------------------------------------------------------------------------
     def _before_read(self) -> None:
@@ -545,7 +635,12 @@ class _FileProxy:
         if not self._closed_logged:
             object.__setattr__(self, "_closed_logged", True)
             self._env.log("file_close", path=self._rel, mode=self._cls, reads=self._reads, writes=self._writes)
-        return self._fh.close()
+        try:
+            return self._fh.close()
+        finally:
+            if self._abs is not None:
+                self._env._open_writes.pop(id(self), None)
+                self._env.stamp(self._abs)
 
     def __enter__(self):
         self._fh.__enter__()
